@@ -182,7 +182,7 @@ func (m *mountedSite) run(k *kase) outcome {
 	rs = m.client.Do(sut.Req{Host: m.host, Target: "/" + m.slug + "/callback?code=" + url.QueryEscape(k.code) + "&state=" + url.QueryEscape(lu.Query().Get("state")),
 		Cookies: []string{m.csrfName + "=" + csrf}})
 	if rs.Err != nil {
-		if m.panics() > p0 {
+		if m.panics() != p0 { // != : the sut's log sink starts over when it grows large
 			return outcome{kind: "panicked", err: "client: " + clip(rs.Err.Error(), 160) + "; server error log: http: panic serving ..."}
 		}
 		return outcome{kind: "inconclusive", err: "client transport error on /callback without a logged handler panic: " + clip(rs.Err.Error(), 160)}
@@ -252,9 +252,9 @@ var slowSite = map[string]string{"google": "redeem", "okta": "callback", "cognit
 func TestProp(t *testing.T) {
 	env := vh.GetEnv()
 	rep := vh.NewReport("C10", "fault_enumeration")
-	rep.Rule("per provider (google, okta, cognito) the structural answer space is ENUMERATED: token answers = 32 status codes x 3 bodies, every truncation point of the valid body, 25 body shapes, 7 access_token variants, 12 non-essential field variants, connection faults; userinfo answers (okta, cognito) likewise + e-mail(6) x email_verified(7); google id_tokens = segments(1..5) x base64 class(6) x email_verified(7) x e-mail(6) + segments x 9 payload shapes + 14 raw id_token values; then seeded random byte-level mutations of valid answers. Every case is run at two sites: provider.Redeem directly and the real authenticator /start -> /callback (e-mails, codes and tokens unique per case and site). distinct = provider|site|class|dimension values (truncation index, status, ...) or mutation target+operator sequence, counted only for cases that produced an outcome")
+	rep.Rule("per provider (google, okta, cognito) the structural answer space is ENUMERATED: token answers = 32 status codes x 3 bodies, every truncation point of the valid body, 25 body shapes, 7 access_token variants, 12 non-essential field variants, connection faults; userinfo answers (okta, cognito) likewise + e-mail(6) x email_verified(7); id_tokens (every provider; google reads the e-mail from them, for okta/cognito they sit beside a valid vouching answer and name a decoy e-mail) = segments(1..5) x base64 class(6) x email_verified(7) x e-mail(6) + segments x 9 payload shapes + 22 raw id_token values (absent, empty, null, mistyped, dots only, not-a-jwt, header-only, huge, ...); optional fields (token: token_type, expires_in, refresh_token, scope, sub; userinfo: sub, name, groups, username, ...; id_token claims) x 20 hostile shapes; then seeded random byte-level mutations of valid answers. Every case is run at two sites: provider.Redeem directly and the real authenticator /start -> /callback (e-mails, codes and tokens unique per case and site). distinct = provider|site|class|dimension values (truncation index, status, ...) or mutation target+operator sequence, counted only for cases that produced an outcome")
 	rep.Assume("the scripted identity providers (the harness's own http server; for okta /callback the sut's TLS fake IdP) answer exactly as scripted; ground truth is the label the generator attached by construction, cross-checked by an independent lenient reading of the served bytes (disagreement => inconclusive)")
-	rep.Assume("verified means the JSON boolean true; 2xx statuses other than 200, byte-order marks, key-case variants, duplicate keys, padded base64url, id_tokens with 2/4/5 segments whose second segment is a valid verified payload, google answers without access_token and mistyped non-essential fields are don't-care zones (a session there must still carry the e-mail in the answer)")
+	rep.Assume("verified means the JSON boolean true; 2xx statuses other than 200, byte-order marks, key-case variants, duplicate keys, padded base64url, id_tokens with 2/4/5 segments whose second segment is a valid verified payload, google answers without access_token, hostile optional fields and (okta, cognito) odd id_tokens beside a vouching userinfo answer are don't-care zones for session/no-session - never for a crash (a session there must still carry the e-mail in the answer)")
 
 	own := newIdP()
 	defer own.close()
@@ -491,6 +491,10 @@ func judge(rep *vh.Report, stream string, k *kase, o outcome) {
 		cls := "class=" + k.Class
 		switch {
 		case k.Prov == "google" && rr.idSegsLt2:
+			cls = "id_token-segments<2"
+		case k.PClass != "":
+			cls = k.PClass
+		case k.Class == "mutation" && rr.idTokNoDot:
 			cls = "id_token-segments<2"
 		case k.Clause != "" && k.Label == lRefuse:
 			cls = "clause=" + k.Clause
